@@ -111,3 +111,22 @@ package rueidis
 //@ func streamTo
 //@   safety C13
 //@   modifies *
+
+// ---------------------------------------------------------------------------------------------
+// C15 — typed reply accessors never panic (message.go).
+// Input invariant of a decoded message: whenever a message carries a payload pointer (bytes or array), intlen is
+// the length of that payload and is therefore non-negative. Integer / boolean / null replies carry no pointer and use
+// intlen as a value. This is what resp.go and CacheUnmarshalView produce; string() and values() rely on it.
+
+//@ typeinv RedisMessage (self.bytes != nil || self.array != nil) ==> (0 <= self.intlen && self.intlen < 140737488355328)
+
+//@ sweep C15 message.go exclude=RedisMessage.serialize,RedisMessage.unmarshalView,RedisMessage.cachesize,RedisMessage.CacheSize,RedisMessage.CacheMarshal,RedisMessage.CacheUnmarshalView,RedisResult.String,RedisMessage.String,prettyRedisResult.MarshalJSON,prettyRedisMessage.MarshalJSON,prettyRedisMessage.string,prettyRedisMessage.values
+//@ typeinv RedisError (self.bytes != nil || self.array != nil) ==> (0 <= self.intlen && self.intlen < 140737488355328)
+
+//@ func RedisMessage.AsXRangeSlice
+//@   safety C15
+//@   loop 0: invariant [C15] len(fieldValues) == i && cap(fieldValues) * 2 <= len(fieldArray)
+
+//@ func RedisMessage.AsFtSearch
+//@   safety C15
+//@   loop 4: invariant [C15] i >= 1
